@@ -52,7 +52,7 @@ def case_strategy():
                                   'relay': st.sampled_from(['', '/came/from?x=1&y=2']),
                                   # the SP's documented clock-skew allowance, and how the IdP gets the subject identifier: handed over ready-made, or built by its
                                   # identifier store from a NameIDPolicy (long-lived IdP, few users, several formats)
-                                  'slack': st.sampled_from([None, None, 0, 180]), 'acs_index': st.sampled_from([False, False, True]),
+                                  'slack': st.sampled_from([None, None, 0, 180]), 'acs_index': st.sampled_from([False, False, True]), 'tz': st.sampled_from([None, None, None, 'PST8', 'JST-9']),
                                   'nid_policy': st.one_of(st.none(), st.none(), st.tuples(st.sampled_from(['user-a', 'user-b']), st.integers(0, 2)).map(list))})
 
 
@@ -117,6 +117,13 @@ def deliver_via(idp, sp, binding, xml, relay, outstanding):
 
 
 def run(case):
+    if case.get('tz'):
+        with clock.tz(case['tz']):
+            return _run(dict(case, tz=None))
+    return _run(case)
+
+
+def _run(case):
     from saml2_tophat import saml, samlp
     from saml2_tophat.xmldsig import SIG_ALLOWED_ALG, DIGEST_ALLOWED_ALG
     wrs, was, wors = bool(case['opts'] & 1), bool(case['opts'] & 2), bool(case['opts'] & 4)
